@@ -27,7 +27,38 @@ type cause struct {
 	detail map[string]interface{}
 }
 
+// disturb makes calls that the package REJECTS (a pointer to a pointer, a field of a kind it does not know, truncated
+// input, a target that is no pointer) right before every fourth real call: whatever a rejected call leaves behind in
+// the package (pooled encoders, cached type information, sticky errors) must not show in the next call.
+var disturbCalls, disturbances int64
+
+type disturbInner struct {
+	A uint8  `tlv8:"1"`
+	B string `tlv8:"2"`
+}
+
+type disturbOdd struct {
+	P **disturbInner   `tlv8:"3"`
+	L []**disturbInner `tlv8:"4"`
+}
+
+func disturb() {
+	if atomic.AddInt64(&disturbCalls, 1)%4 != 0 {
+		return
+	}
+	atomic.AddInt64(&disturbances, 1)
+	in := &disturbInner{A: 7, B: "x"}
+	vf.RecoverWithin(callWatchdog, func() { tlv8.Marshal(&in) })
+	vf.RecoverWithin(callWatchdog, func() { tlv8.Marshal(disturbOdd{P: &in, L: []**disturbInner{&in}}) })
+	vf.RecoverWithin(callWatchdog, func() { tlv8.Marshal(make(chan int)) })
+	var out disturbInner
+	vf.RecoverWithin(callWatchdog, func() { tlv8.Unmarshal([]byte{1, 5, 9}, &out) })
+	vf.RecoverWithin(callWatchdog, func() { tlv8.Unmarshal([]byte{1, 1, 9}, out) })
+	vf.RecoverWithin(callWatchdog, func() { tlv8.Unmarshal([]byte{2, 255}, &in) })
+}
+
 func hcMarshal(v reflect.Value) (b []byte, err error, pan string) {
+	disturb()
 	hung, p, text := vf.RecoverWithin(callWatchdog, func() { b, err = tlv8.Marshal(v.Interface()) })
 	if hung {
 		pan = hangText
@@ -41,6 +72,7 @@ func hcMarshal(v reflect.Value) (b []byte, err error, pan string) {
 
 func hcUnmarshal(data []byte, t reflect.Type) (out reflect.Value, err error, pan string) {
 	ptr := reflect.New(t)
+	disturb()
 	hung, p, text := vf.RecoverWithin(callWatchdog, func() { err = tlv8.Unmarshal(data, ptr.Interface()) })
 	if hung {
 		// the abandoned goroutine may still write to ptr: hand out a fresh zero value
